@@ -467,4 +467,5 @@ func checkC07(c *Ctx) {
 	checkC07InitKey(c)
 	checkC07ResetRewinds(c)
 	checkC07UndoKeepsStart(c)
+	unitRule(c, "C07.units", []string{"(*history.Sources).Save", "(*history.Sources).Undo", "(*history.Sources).Redo", "(*history.Sources).Revert"}, 0)
 }
